@@ -85,11 +85,13 @@ theorem tryFind_core (k : MatchKind) (hk : k = .ll ∨ k = .lf) (P : List (List 
         (cover_nil _) h0
       simpa [lsp] using this
 
-/-- a done input (`s > e`) has no occurrence and yields `none` -/
-theorem tryFind_done {σ : Type} (A : Aut σ α) (i : Input α) (h : i.e < i.s) :
+/-- a done input (`s > e`) has no occurrence and yields `none` (when the requested anchoring
+mode is supported: the start state is asked for first) -/
+theorem tryFind_done {σ : Type} (A : Aut σ α) (i : Input α) (h : i.e < i.s) {q0 : σ}
+    (hq0 : A.start i.anch = some q0) :
     tryFindFwd A none i = .ok none := by
   unfold tryFindFwd
-  simp [Input.isDone, h]
+  simp [Input.isDone, h, hq0]
 
 theorem no_occ_of_done {P : List (List α)} {hay : List α} {s e : Nat} (h : e < s) (m : Mat) :
     ¬ IsOcc P hay s e m := by
@@ -104,7 +106,7 @@ theorem find_ll (P : List (List α)) (sk : StartKind) (i : Input α) (he : i.ear
   by_cases hse : i.s ≤ i.e
   · obtain ⟨r, h1, _, h3⟩ := tryFind_core .ll (Or.inl rfl) P sk i h hse
     exact ⟨r, h1, isFind_ll_of_best (isBestQ_of_bestIn i.valid.1 hse (h3 he))⟩
-  · exact ⟨none, tryFind_done _ i (by omega), fun m hm => no_occ_of_done (by omega) m hm.1⟩
+  · exact ⟨none, tryFind_done _ i (by omega) (start_ideal h), fun m hm => no_occ_of_done (by omega) m hm.1⟩
 
 /-- non-earliest leftmost-first search -/
 theorem find_lf (P : List (List α)) (sk : StartKind) (i : Input α) (he : i.earliest = false)
@@ -114,7 +116,7 @@ theorem find_lf (P : List (List α)) (sk : StartKind) (i : Input α) (he : i.ear
   by_cases hse : i.s ≤ i.e
   · obtain ⟨r, h1, _, h3⟩ := tryFind_core .lf (Or.inr rfl) P sk i h hse
     exact ⟨r, h1, isFind_lf_of_best (isBestQ_of_bestIn i.valid.1 hse (h3 he))⟩
-  · exact ⟨none, tryFind_done _ i (by omega), fun m hm => no_occ_of_done (by omega) m hm.1⟩
+  · exact ⟨none, tryFind_done _ i (by omega) (start_ideal h), fun m hm => no_occ_of_done (by omega) m hm.1⟩
 
 theorem isOccA_of_admQ {k : MatchKind} {P : List (List α)} {hay : List α} {s e : Nat}
     {anch : Bool} {m : Mat} (h : AdmQ (patSet k P) hay s e anch m) : IsOccA P hay s e anch m := by
@@ -129,6 +131,6 @@ theorem find_isOcc (k : MatchKind) (hk : k = .ll ∨ k = .lf) (P : List (List α
   by_cases hse : i.s ≤ i.e
   · obtain ⟨r, h1, h2, _⟩ := tryFind_core k hk P sk i h hse
     exact ⟨r, h1, fun m hm => isOccA_of_admQ (occOrNone_adm i.valid.1 hse h2 m hm)⟩
-  · exact ⟨none, tryFind_done _ i (by omega), by simp⟩
+  · exact ⟨none, tryFind_done _ i (by omega) (start_ideal h), by simp⟩
 
 end AcVerif.LmP
